@@ -181,7 +181,7 @@ func (m *Machine) posOf(it *Item) string {
 	}
 	for i := pc; i >= 0; i-- {
 		if p := b.Instrs[i].Pos(); p.IsValid() {
-			return m.Prog.Fset.Position(p).String()
+			return m.Prog.Fset.Position(p).String() + " (" + f.fi.Fn.String() + ")"
 		}
 	}
 	return f.fi.Fn.String()
